@@ -235,3 +235,108 @@ def parse_events(ev):
         if n is None: out.append(('?', ev[i:])); break
         out.append(tuple([c] + ev[i + 1:i + 1 + n])); i += 1 + n
     return out
+
+
+# ----------------------------------------------------------------------------
+# systematic scenarios: every operation on every handle kind, sole owner and shared in several ways,
+# followed by reads/counts through every remaining handle and by releasing everything
+# ----------------------------------------------------------------------------
+RECIPES = {
+    'Arc': [[0, 0, 0, 0]], 'Uniq': [[0, 1, 0, 0]], 'ArcB': [[0, 2, 0, 0]], 'Fat': [[0, 3, 2, 2]], 'FatBad': [[0, 3, 2, 5]],
+    'Fat0': [[0, 3, 0, 0]], 'Thin': [[0, 4, 2, 0]], 'Thin0': [[0, 4, 0, 0]], 'MU': [[0, 5, 0, 0]], 'MA': [[0, 6, 0, 0]],
+    'MUS': [[0, 7, 2, 0]], 'MAS': [[0, 8, 2, 0]], 'MUH': [[0, 9, 2, 0]], 'Slice': [[0, 10, 2, 0]], 'Slice0': [[0, 10, 0, 0]], 'AH': [[0, 11, 2, 0]],
+    'Off': [[0, 0, 0, 0], [23, 2, 0]], 'Un1': [[0, 0, 0, 0], [23, 4, 0]], 'Un2': [[0, 2, 0, 0], [23, 5, 0]],
+    'Raw': [[0, 0, 0, 0], [23, 0, 0]], 'RawThin': [[0, 4, 2, 0], [23, 9, 0]], 'Prot': [[0, 4, 2, 0], [23, 19, 0]],
+    'Erased': [[0, 0, 0, 0], [23, 11, 0]], 'Dyn': [[0, 0, 0, 0], [23, 15, 0]], 'RawSlice': [[0, 10, 2, 0], [23, 17, 0]],
+    'US': [[0, 7, 2, 0], [40, 0, 0], [40, 0, 1], [23, 16, 0]], 'UH': [[0, 9, 2, 0], [40, 0, 0], [40, 0, 1], [23, 16, 0]],
+    'MUw': [[0, 5, 0, 0], [40, 0, 0]], 'MAw': [[0, 6, 0, 0], [38, 0, 0]], 'MASw': [[0, 8, 2, 0], [38, 0, 0], [38, 0, 1]],
+}
+SHARINGS = [[], [[20, 0]], [[24, 0]], [[20, 0], [23, 2, 1]], [[20, 0], [23, 0, 1]], [[20, 0], [22, 1]], [[20, 0], [20, 0]],
+            [[24, 0], [23, 4, 1]], [[20, 0], [23, 9, 1]]]
+
+def _single_ops():
+    ops = [[20, 0], [21, 0], [22, 0], [24, 0], [26, 0], [27, 0], [28, 0], [29, 0], [30, 0], [31, 0], [32, 0], [33, 0], [37, 0], [46, 0]]
+    ops += [[23, c, 0] for c in range(0, 25)]
+    ops += [[25, a, 0] for a in range(0, 3)]
+    for code in (34, 35, 36):
+        ops += [[code, 0, 0], [code, 0, 1]]
+    for code in (38, 40, 47):
+        ops += [[code, 0, 0], [code, 0, 1], [code, 0, 5]]
+    return [[o] for o in ops]
+
+def _with_ops():
+    out = []
+    bodies = [[], [[20, 0]], [[25, 1, 0]], [[25, 0, 0], [26, 0]], [[29, 0]], [[24, 0]], [[43]], [[20, 0], [43]], [[27, 0], [28, 0]],
+              [[41, 3, 0], [20, 0], [42]], [[41, 2, 0], [25, 1, 0], [43], [42]], [[41, 4, 0], [20, 0], [25, 2, 0], [42]], [[21, 0]], [[23, 8, 0]]]
+    for w in range(0, 5):
+        for b in bodies:
+            out.append([[41, w, 0]] + b + [[42]])
+    return out
+
+def _with_mut_replace():
+    """with_arc_mut on thin 0 with a second thin K available: replace / assign, then return or panic"""
+    out = []
+    for pre in ([], [[20, 0]], [[20, 'K']]):
+        for act in ([44, 0, 'K'], [45, 0, 'K']):
+            for tail in ([], [[43]], [[29, 0]], [[20, 0], [43]], [[25, 1, 0], [43]]):
+                out.append(('K', pre, [[41, 1, 0], act] + tail + [[42]]))
+    return out
+
+BASE_KIND = {'FatBad': 'Fat', 'Fat0': 'Fat', 'Thin0': 'Thin', 'Slice0': 'Slice', 'MUw': 'MU', 'MAw': 'MA', 'MASw': 'MAS'}
+UNINIT = {'MU', 'MA', 'MUS', 'MAS', 'MUH'}
+
+def applicable(kind, op):
+    k = BASE_KIND.get(kind, kind); c = op[0]
+    if c == 20: return k in ARC_KINDS or k in CLONE_RES
+    if c in (21, 22, 27): return k not in RAW_KINDS
+    if c == 23: return (op[1], k) in CONV or (op[1] == 16 and k in UNINIT)
+    if c == 24: return k in ('Arc', 'Off', 'Un1', 'Un2', 'ArcB')
+    if c == 25: return [k in ARC_KINDS, k in ARC_KINDS or k in ('Thin', 'Off', 'Un1', 'Un2'), k in ('Arc', 'Off', 'ArcB', 'Un1', 'Un2')][op[1]]
+    if c == 26: return k in ARC_KINDS
+    if c == 28: return True
+    if c == 29: return k in ARC_KINDS and k not in ('MA', 'MAS')
+    if c in (30, 31, 32, 33, 35, 36): return k == 'Arc'
+    if c == 34: return k in ('Arc', 'Off')
+    if c == 37: return k == 'Uniq'
+    if c == 38: return k in ('MA', 'MAS')
+    if c == 40: return k in ('MU', 'MUS', 'MUH')
+    if c == 47: return k in ('Uniq', 'US', 'UH')
+    if c == 46: return k in ('Un1', 'Un2')
+    if c == 41: return (op[1], k) in BEGIN
+    return False
+
+def systematic_cases(prefix='Y'):
+    cases = []
+    n = 0
+    def finish(ops, nh):
+        # observe through everything, then release everything (raws are converted back first)
+        tail = []
+        for h in range(nh):
+            tail += [[25, 1, h], [27, h]]
+        for h in range(nh):
+            tail += [[23, 1, h], [23, 10, h], [23, 18, h], [21, h]]
+        return ops + tail
+    singles = _single_ops(); withs = _with_ops()
+    for kind, rec in RECIPES.items():
+        for sh in SHARINGS:
+            if sh and not applicable(kind, sh[0]): continue
+            for body in singles + withs:
+                if not applicable(kind, body[0]): continue
+                ops = [list(o) for o in rec + sh + body]
+                nh = 1 + len(sh) + sum(1 for o in body if o[0] in (20, 24))
+                cases.append(('%s%d' % (prefix, n), finish(ops, nh))); n += 1
+    # one inapplicable operation per kind (malformed stream)
+    for kind, rec in RECIPES.items():
+        for body in singles[::7]:
+            if applicable(kind, body[0]): continue
+            cases.append(('%s%d' % (prefix, n), finish([list(o) for o in rec + body], 2))); n += 1
+    # replace/assign inside with_arc_mut
+    for (_, pre, body) in _with_mut_replace():
+        for base_share in ([], [[20, 0]]):
+            ops0 = [[0, 4, 2, 0]] + base_share
+            k = len(ops0)   # id of the second thin
+            ops = ops0 + [[0, 4, 3, 0]]
+            sub = lambda o: [k if x == 'K' else x for x in o]
+            ops += [sub(o) for o in pre] + [sub(o) for o in body]
+            cases.append(('%s%d' % (prefix, n), finish(ops, 6))); n += 1
+    return cases
